@@ -39,7 +39,7 @@ Section Preserved.
     | DGet r _ => okref r
     | DGetAny m _ _ => forallb (fun e => okref (snd (fst e))) m
     | DIf _ ds => nw_list ds
-    | DUndefinedData => okdata
+    | DUndefinedData _ => okdata
     | DWillPayloadCopy => okref (W F_payload)
     | _ => true
     end.
